@@ -25,6 +25,10 @@ pub struct ExecCfg {
     pub rollback_trace: bool,
     /// re-check values handed back by put/get at the end of the transaction
     pub recheck_handed_back: bool,
+    /// after every call that returned an error: the transaction's view must be unchanged (C06)
+    pub verify_after_error: bool,
+    /// record (contents digest, reachable pages) after every commit (C06 twin runs)
+    pub trace_commits: bool,
 }
 
 #[derive(Clone, Copy, Debug, PartialEq, Eq, Hash, PartialOrd, Ord)]
@@ -41,6 +45,7 @@ pub enum Class {
     RollbackTrace,
     MisuseNoPanic,
     Open,
+    ErrChanged,
 }
 
 #[derive(Clone, Debug)]
@@ -78,6 +83,8 @@ pub struct Stats {
     pub how_used: BTreeMap<String, u64>,
     pub key_classes: BTreeMap<String, u64>,
     pub val_classes: BTreeMap<String, u64>,
+    pub commit_trace: Vec<(u64, u64)>,
+    pub error_calls_verified: u64,
 }
 
 impl Stats {
@@ -107,6 +114,7 @@ impl Stats {
         self.nested_then_ancestor_delete_txs += o.nested_then_ancestor_delete_txs;
         self.rollback_checks += o.rollback_checks;
         self.max_depth = self.max_depth.max(o.max_depth);
+        self.error_calls_verified += o.error_calls_verified;
         for (k, v) in &o.how_used {
             *self.how_used.entry(k.clone()).or_insert(0) += v;
         }
@@ -314,6 +322,7 @@ pub struct Run<'c> {
     pub cur_op: Option<usize>,
     pub last_shape: Option<fileck::BucketShape>,
     pub last_file_len: u64,
+    pub last_was_err: bool,
 }
 
 impl<'c> Run<'c> {
@@ -326,6 +335,7 @@ impl<'c> Run<'c> {
             cur_op: None,
             last_shape: None,
             last_file_len: 0,
+            last_was_err: false,
         }
     }
 }
@@ -362,6 +372,7 @@ impl<'c> Run<'c> {
             Err(e) => Err(ErrKind::of(e)),
         };
         self.record(op.name(), &kind_str(&rk));
+        self.last_was_err = rk.is_err();
         if &rk != want {
             let class = if matches!(rk, Err(ErrKind::Other)) {
                 Class::UnexpectedErr
@@ -639,15 +650,7 @@ fn mk_bound<'a>(t: (u8, usize), arena: &'a [Vec<u8>]) -> Bound<&'a [u8]> {
 }
 
 pub fn run_history(h: &History, cfg: &ExecCfg, path: &Path) -> Outcome {
-    let mut run = Run {
-        cfg,
-        out: Outcome::default(),
-        ps: h.pagesize,
-        cur_tx: 0,
-        cur_op: None,
-        last_shape: None,
-        last_file_len: 0,
-    };
+    let mut run = Run::new(cfg, h.pagesize);
     let r = util::catch(|| run_inner(h, &mut run, path));
     match r {
         Ok(()) => {}
@@ -788,6 +791,7 @@ fn exec_tx_inner(run: &mut Run, db: &DB, path: &Path, script: &TxScript, committ
             for (oi, op) in script.ops.iter().enumerate() {
                 run.cur_op = Some(oi);
                 run.out.stats.ops += 1;
+                run.last_was_err = false;
                 // resolve the handle, skip ops on handles that are not live (shrunk replays)
                 let hidx = match op {
                     Op::Put { h, .. }
@@ -1159,6 +1163,18 @@ fn exec_tx_inner(run: &mut Run, db: &DB, path: &Path, script: &TxScript, committ
                 if ended_by_misuse || run.out.aborted {
                     break;
                 }
+                if run.cfg.verify_after_error && run.last_was_err && !run.cfg.verify_each_op {
+                    run.out.stats.error_calls_verified += 1;
+                    if let Some(d) = verify_tx_against(&tx, &work, false) {
+                        run.viol(
+                            Class::ErrChanged,
+                            format!("error-call-changed-state:{}:{}", op.name(), classify_diff(&d)),
+                            format!("{:?} returned an error but changed what the transaction sees: {}", op, d),
+                        );
+                        run.out.aborted = true;
+                        break;
+                    }
+                }
                 if run.cfg.verify_each_op {
                     run.out.stats.full_verifications += 1;
                     if let Some(d) = verify_tx_against(&tx, &work, true) {
@@ -1419,6 +1435,12 @@ fn file_checks(run: &mut Run, db: &DB, path: &Path, committed: &MBucket) {
         );
     }
     // shape bookkeeping for the evidence
+    if run.cfg.trace_commits {
+        run.out
+            .stats
+            .commit_trace
+            .push((rep.contents.digest(), rep.reachable.len() as u64));
+    }
     let t = rep.total_shape();
     run.out
         .stats
